@@ -1,4 +1,4 @@
-package main
+package c06lib
 
 import (
 	"fmt"
